@@ -232,18 +232,23 @@ def run(rep, tier, seed, build):
         for x, m in bad[:3]:
             rep.violation("# C17: version marker content %s: open gives '%s', directory %s; model: %s\n"
                           % (x["content"], x["res"], "unchanged" if x["unchanged"] else "MODIFIED", m))
+        from common import pmap_confirm
         lp = []
-        for i, mode in enumerate(["plain", "sw", "occ", "plain"][: (2 if tier == "quick" else 4)]):
-            lp += [(mode, p) for p in lock_scenario(i, mode)]
+        ls, unconf1 = pmap_confirm(lambda a: lock_scenario(*a), list(enumerate(["plain", "sw", "occ", "plain"][: (2 if tier == "quick" else 4)])),
+                                   lambda x: bool(x), workers=1)
+        for (i, mode), probs in zip(enumerate(["plain", "sw", "occ", "plain"]), ls):
+            lp += [(mode, p) for p in probs]
         for mode, p in lp[:2]:
             rep.violation("# C17 (%s database): %s\n" % (mode, p))
-        for mode, w in [("plain", 2), ("occ", 1), ("sw", 4)][: (2 if tier == "quick" else 3)]:
-            sw = slow_worker_drop(mode, w)
+        sws, unconf2 = pmap_confirm(lambda a: slow_worker_drop(*a), [("plain", 2), ("occ", 1), ("sw", 4)][: (2 if tier == "quick" else 3)],
+                                    lambda x: bool(x), workers=1)
+        for (mode, w), sw in zip([("plain", 2), ("occ", 1), ("sw", 4)], sws):
             if sw:
                 lp.append((mode, sw[0]))
                 rep.violation("# C17 (%s database, %d workers): %s\n%s" % (mode, w, sw[0], sw[1]))
                 break
-        sj, sj_eff = sealed_journal_drop("plain" if seed % 2 else "sw")
+        (sjr,), unconf3 = pmap_confirm(sealed_journal_drop, ["plain" if seed % 2 else "sw"], lambda x: bool(x[0]), workers=1)
+        sj, sj_eff = sjr
         if sj:
             lp.append(("sealed", sj[0]))
             rep.violation("# C17: %s\n%s" % sj)
@@ -253,7 +258,7 @@ def run(rep, tier, seed, build):
             obligations=obl, discharged=dis if not problems else min(dis, obl - 1),
             checker_cmd="cd coq && make props/C17.vo (coqc 8.16.1) + Print Assumptions audit", trusted_base=TRUSTED_BASE,
             programs=len(results) + 2, traces_validated_against_impl=len(results), disagreements_checked=len(bad) + len(lp) + len(bad_nl),
-            no_lock_file_cases=len(res_nl), sealed_journal_drop_effective=sj_eff,
+            no_lock_file_cases=len(res_nl), unconfirmed_alarms=unconf1 + unconf2 + unconf3, sealed_journal_drop_effective=sj_eff,
             evaluations=len(results) + 2, distinct_nontrivial=len({x["content"] for x in results}),
             rule="version marker contents: every single-byte variant of 'FJL\\x03', truncations, extensions, other versions, "
                  "random strings and an absent marker over a real database directory (with a journal and tables); open result "
